@@ -323,7 +323,9 @@ class FnShape:
                     return tt.end
                 if tt.text in OPEN:
                     m = match_close(toks, m)
-                elif tt.text in CLOSE:
+                elif tt.text in (")", "]"):
+                    pass   # the anchor sits inside a call or index expression: the statement ends further out
+                elif tt.text == "}":
                     return toks[_prev_code(toks, m)].end
             m += 1
         raise AnchorLost("statement end not found")
